@@ -78,6 +78,7 @@ pub const POOL: &[QueryShape] = &[
     QueryShape { text: "(return_statement (identifier)? @id)", caps: &[c("id", "?", &["identifier"])], root_kinds: &["return_statement"], total: false, exec_safe: true },
     QueryShape { text: "(call function: (identifier) @args)", caps: &[c("args", "", &["identifier"])], root_kinds: &["call"], total: false, exec_safe: true },
     QueryShape { text: "(class_definition body: (block (_)* @body))", caps: &[c("body", "*", &[])], root_kinds: &["class_definition"], total: false, exec_safe: true },
+    QueryShape { text: "(module (expression_statement) @stmt_a (expression_statement) @stmt_b)", caps: &[c("stmt_a", "", &["expression_statement"]), c("stmt_b", "", &["expression_statement"])], root_kinds: &["module"], total: false, exec_safe: true },
 ];
 
 pub fn quant_of(s: &str) -> crate::gen::ast::Quant {
